@@ -54,6 +54,14 @@ pub enum Point {
     /// In-thread worker construction begins / service factories are about to run.
     WorkerStarting(usize),
 
+    /// The accept loop found its waker queue empty and is about to reset it. `lock_held` tells
+    /// whether it still holds the queue lock it saw the empty queue through (if it does not,
+    /// a notification pushed right now would be thrown away by the reset).
+    QueueDrained {
+        /// the queue lock is held across the emptiness check and the reset
+        lock_held: bool,
+    },
+
     /// The server has told the accept thread to stop and is about to tell the workers (the accept
     /// thread and the workers may already run in between).
     StopSignalled,
